@@ -21,18 +21,25 @@ import traceback
 
 import pyrtl
 
-RULE = ('condition programs = forests of with-predicate / otherwise / |= nodes: (1) ALL forests '
-        'with <= N branch nodes over {p0,p1[,p2],otherwise} x every subset of 2 targets assigned per '
-        'branch (bounded-exhaustive; quick N=2 + a seeded sample of N=3, thorough N=3), (2) seeded '
-        'random forests (depth <= 5, 3-5 shared 1-bit Input predicates, 2-3 targets among '
-        'WireVector/Register/MemBlock, assignments at random positions, otherwise at any position, '
-        'defaults= sometimes, mixed-width / int right-hand sides sometimes; about half are repaired '
-        'into accepted programs by dropping conflicting assignments), (3) a malformed stream '
-        '(programs that raise, foreign exceptions, multi-block designs) interleaved with the good '
-        'ones in one process. Each accepted program is simulated under ALL valuations of its '
-        'predicates (<= 32) in a shuffled multi-cycle run (twice, fresh data) so registers and '
-        'memories carry state. A case is distinct by its generated source text + stimulus and '
-        'non-trivial when it is rejected for a conflict or some target takes >= 2 values in the run.')
+RULE = ('condition programs = forests of with-predicate / otherwise / |= nodes: (1) bounded-exhaustive: ALL '
+        'forests with <= N branch nodes labelled {p0,p1,otherwise} x every subset of 2 targets assigned per '
+        'branch, for 4 target pairs (wire+register, wire+memory, register+memory, wire+wire); quick N=2 plus '
+        '300 seeded samples of N=3 over 3 predicates, thorough N=3 (two pairs) plus 3000 samples of N=4; '
+        '(2) seeded random forests (quick 400, thorough 8000): depth <= 4 (thorough 5), 3-5 shared 1-bit Input '
+        'predicates, 2-3 targets among WireVector/Register/MemBlock, assignments at random positions among the '
+        'branches, otherwise at any position (first, middle, repeated), defaults= in 40 %, mixed-width / int '
+        'right-hand sides sometimes; 60 % are repaired into accepted programs by dropping conflicting '
+        'assignments; (3) multi-block designs (2-3 conditional blocks per design, defaults of one block naming '
+        'targets of another) and a malformed stream (2-bit predicate, foreign exception inside the block, nested '
+        'conditional_assignment, otherwise outside a block, repeated assignment, unguarded assignment) '
+        'interleaved with the good programs in one process, module state inspected after each. Each accepted '
+        'program is simulated under ALL valuations of its predicates (<= 32, shuffled, twice with fresh data, '
+        'random initial register/memory contents) in one multi-cycle run so registers and memories carry state. '
+        'Per program: accept/reject vs model and vs syntactic criterion; pred_set of every |= (observed by '
+        'wrapping conditional._check_and_add_pred_set) vs model; elaborated netlist vs model expression '
+        '(structural); simulated values vs Coq model, Coq tree interpreter and an independent Python tree '
+        'interpreter. Distinct by generated source text + stimulus; non-trivial when rejected for a conflict or '
+        'some target takes >= 2 values during the run.')
 IMPORTS = ('From Coq Require Import ZArith List Bool.\n'
            'From PyRTL Require Import Front.Cond Front.CondSpec Front.CondHarness.\n'
            'Import ListNotations. Open Scope Z_scope.')
@@ -44,8 +51,12 @@ ASSUMPTIONS = ['predicates are 1-bit wires; right-hand sides, addresses, data, e
                'defaults are opaque wires (leaves) whose per-cycle values are the environment',
                'a right-hand side is first converted to the target width by |= (as_wires/truncate/zero-extend); '
                'the model sees the converted value',
-               'multi-cycle behaviour is checked by simulation (registers and memories carry state); the Coq '
-               'theorems are per cycle for every environment, composition with C01 gives the run',
+               'the Coq value theorems are per cycle for EVERY environment (predicates, data, register file); '
+               'C07_multi_cycle_registers composes them over input sequences for a latch-every-cycle model of '
+               'registers; that the simulator really latches / applies enabled memory writes is C01/C08 and is '
+               'exercised here by multi-cycle simulation with state-carrying registers and memories',
+               'several conditional blocks in one design are specified block by block (declared defaults belong '
+               'to the block that declares them)',
                'Python with-protocol / exception unwinding is exercised by the malformed stream only']
 
 
